@@ -9,6 +9,8 @@
   W3 SKIP             every file sink of a public write method is dominated by the skip-return of the
                       overwrite policy; under policy SKIP the policy answers "skip"
   W4 CLOCK            the only other ambient read on the write path is the date stamp
+  W5 NO-MUTATION      no function of the writer modules writes into a model object (the effect analysis of C18,
+                      shared): writing does not change what is written, so writing twice gives the same content
 """
 import ast
 
